@@ -56,6 +56,21 @@ def check(run):
             run.violation(f"C04: library crashed on a history (geometry {defs}): {crash[:200]}",
                           dict(kind="history", cfg=cfg, defines=defs, harness_src="hist_h", lines=[f"HRUN 2 {kinds[k]} - {hs[k]}"], observed=crash[-3000:]))
     run.sample(dict(history=" ;; ".join(histcheck.split_history(hists[0])[0][:12]), meaning="ops on handles (0,1 = document roots); after each op all documents and all live handles are dumped"))
+    # many values sharing one copied string, in a build whose string-length type is narrower than its slot-id type (more users
+    # than a length can count): removing users one by one leaves the others intact (every step compared with the tree model)
+    gdefs = {"ARDUINOJSON_SLOT_ID_SIZE": 2, "ARDUINOJSON_STRING_LENGTH_SIZE": 1, "ARDUINOJSON_POOL_CAPACITY": 64}
+    implg = vlib.need_harness("hist_h", cfg, gdefs)
+    for users in (256, 257, 300):
+        script = "toarr 0 @0 ;; " + "".join("addval 0 s736861726564 @0 ;; " for _ in range(users)) + "".join("rmidx 0 0 @0 ;; " for _ in range(users))
+        mo, _ = vlib.run_lines(model, ["CFG " + cfg, "HEXP 2 " + script])
+        io, crash = vlib.run_lines(implg, ["CFG " + cfg, "HRUN 2 0 - " + script])
+        run.count(("shared", users))
+        exp = [x for x in mo[1].split(" ;; ") if x.strip()]
+        got, trailer = histcheck.parse_run(io[1]) if len(io) > 1 else ([], "")
+        k = histcheck.first_divergence(exp, got)
+        if crash or k is not None:
+            oracle_fail.append((cfg, "HRUN 2 0 - " + script[:3000], f"{users} users of one string, step {k}: {exp[k][:120] if k is not None and k < len(exp) else ''} [geometry {gdefs}]",
+                                (crash or (got[k][0] if k is not None and k < len(got) else "missing"))[-300:]))
     # assignment from an aliasing source
     impl = vlib.need_harness("hist_h", cfg)
     known = {k["id"]: k for k in vlib.load_known_findings() if k["prop"] == "C04"}
